@@ -4,6 +4,7 @@ CONSTANTS
   Scans = 2
   SaveMask = TRUE
   MaxFaults = 2
+  OneShot = FALSE
   CountInsideIf = TRUE
 INVARIANTS HandlerCoversBody CountExact InstalledIffUsed NonNegative
 VIEW svarsNoLog
